@@ -4,6 +4,9 @@ package main
 
 import (
 	"bytes"
+	"fmt"
+	"strconv"
+	"strings"
 
 	imldsa "github.com/tink-crypto/tink-go/v2/internal/signature/mldsa"
 	"github.com/tink-crypto/tink-go/v2/internal/verifharness/hlib"
@@ -11,8 +14,162 @@ import (
 
 // Section 2: the codecs of marshal.go against FIPS 204 Algorithms 16–21 and 28 written out here
 // bit by bit from the standard (IntegerToBits / BitsToBytes), plus NTT laws. These are oracles on
-// the Go side (no driver command exists for the codecs); end to end the same codecs are tied to the
-// Lean reference by the byte-identical keys and signatures of section 3.
+// the Go side. Every codec check is ALSO put to the Lean list model of the codecs
+// (lean/TinkVerif/Model/MldsaPack.lean, laws proved in Props/C10Pack.lean) as a driver line
+// `!D spack|sunpack|bpack|bunpack|hpack|hunpack|w1enc …` whose implementation answer is what the Go
+// function returned through the export hooks; end to end the same codecs are tied to the Lean
+// reference by the byte-identical keys and signatures of section 3.
+
+// emitD puts one codec question to the Lean model with Go's answer.
+func emitD(o *hlib.Out, res string, op string, args ...string) {
+	o.Emit("!D "+op+" "+strings.Join(args, " "), res, true)
+	o.Count("codec/lean-" + op)
+}
+
+// hintShow prints a decoded hint vector the way the driver does: "ok" and, per polynomial, the
+// positions of its ones ("-" for none). A coefficient other than 0/1 is reported as such.
+func hintShow(h [][]uint32) string {
+	var sb strings.Builder
+	sb.WriteString("ok")
+	for _, p := range h {
+		var pos []uint32
+		for j, c := range p {
+			if c > 1 {
+				return fmt.Sprintf("bad-coeff %d at %d", c, j)
+			}
+			if c == 1 {
+				pos = append(pos, uint32(j))
+			}
+		}
+		sb.WriteString(" " + hlib.U32List(pos))
+	}
+	return sb.String()
+}
+
+func hintArgs(h [][]uint32) []string {
+	out := make([]string, len(h))
+	for i, p := range h {
+		var pos []uint32
+		for j, c := range p {
+			if c != 0 {
+				pos = append(pos, uint32(j))
+			}
+		}
+		out[i] = hlib.U32List(pos)
+	}
+	return out
+}
+
+// goHintUnpack is Go's hintBitUnpackVector as a driver answer: "reject", "ok pos…" or "panic".
+func goHintUnpack(par *imldsa.VerifParams, y []byte) string {
+	res := "reject"
+	if p := hlib.Recover(func() {
+		h, err := par.VerifHintBitUnpack(y)
+		if err == nil {
+			res = hintShow(h)
+		}
+	}); p != "" {
+		return "panic"
+	}
+	return res
+}
+
+func polyArgs(v [][]uint32) []string {
+	out := make([]string, len(v))
+	for i := range v {
+		out[i] = hlib.U32List(v[i])
+	}
+	return out
+}
+
+func csvU32(s string) ([]uint32, bool) {
+	if s == "-" {
+		return nil, true
+	}
+	return u32s(strings.Split(s, ","))
+}
+
+// codecRes recomputes Go's answer for a codec driver line (replay); toks starts at the op name.
+func codecRes(toks []string) (string, bool) {
+	atoi := func(s string) int { n, _ := strconv.Atoi(s); return n }
+	psetFor := func(omega, k int) *pset {
+		for _, ps := range psets {
+			if ps.omega == omega && ps.k == k {
+				return ps
+			}
+		}
+		return nil
+	}
+	switch {
+	case toks[0] == "spack" && len(toks) == 3:
+		if w, ok := csvU32(toks[2]); ok {
+			return hlib.Tok(imldsa.VerifSimpleBitPack(w, atoi(toks[1]))), true
+		}
+	case toks[0] == "sunpack" && len(toks) == 3:
+		return hlib.U32List(imldsa.VerifSimpleBitUnpack(hlib.FromTok(toks[2]), atoi(toks[1]))), true
+	case toks[0] == "bpack" && len(toks) == 4:
+		if w, ok := csvU32(toks[3]); ok {
+			a, b := atoi(toks[1]), atoi(toks[2])
+			return hlib.Tok(imldsa.VerifBitPack(w, uint32(b), bitlen(a+b))), true
+		}
+	case toks[0] == "bunpack" && len(toks) == 4:
+		a, b := atoi(toks[1]), atoi(toks[2])
+		return hlib.U32List(imldsa.VerifBitUnpack(hlib.FromTok(toks[3]), uint32(b), bitlen(a+b))), true
+	case toks[0] == "hpack" && len(toks) >= 3:
+		ps := psetFor(atoi(toks[1]), atoi(toks[2]))
+		if ps == nil || len(toks) != 3+ps.k {
+			return "", false
+		}
+		h := make([][]uint32, ps.k)
+		for i := range h {
+			h[i] = make([]uint32, 256)
+			pos, ok := csvU32(toks[3+i])
+			if !ok {
+				return "", false
+			}
+			for _, j := range pos {
+				if j > 255 {
+					return "", false
+				}
+				h[i][j] = 1
+			}
+		}
+		return hlib.Tok(ps.par.VerifHintBitPack(h)), true
+	case toks[0] == "hunpack" && len(toks) == 4:
+		ps := psetFor(atoi(toks[1]), atoi(toks[2]))
+		y := hlib.FromTok(toks[3])
+		if ps == nil {
+			return "", false
+		}
+		if len(y) != ps.omega+ps.k { // sigDecode never hands over another length
+			return "reject", true
+		}
+		return goHintUnpack(ps.par, y), true
+	case toks[0] == "w1enc" && len(toks) >= 3:
+		for _, ps := range psets {
+			if ps.k == len(toks)-2 && ps.par.VerifW1Bits() == atoi(toks[1]) {
+				v := make([][]uint32, ps.k)
+				for i := range v {
+					w, ok := csvU32(toks[2+i])
+					if !ok {
+						return "", false
+					}
+					v[i] = w
+				}
+				return hlib.Tok(ps.par.VerifW1Encode(v)), true
+			}
+		}
+	}
+	return "", false
+}
+
+func bitlen(n int) int {
+	b := 0
+	for ; n > 0; n >>= 1 {
+		b++
+	}
+	return b
+}
 
 // specPack: z ← z ‖ IntegerToBits(v_i, b); BitsToBytes(z).
 func specPack(vals []uint32, b int) []byte {
@@ -120,6 +277,25 @@ func randHint(r *hlib.Rng, k, total int) [][]uint32 {
 	return h
 }
 
+// loweredCounterHint is a valid encoding in which the counter of an EMPTY polynomial i ≥ 1 is lowered
+// below its predecessor. Everything else stays consistent (no index belongs to polynomial i, the
+// following counters are untouched), so the only check of Algorithm 21 that rejects it is
+// `y[ω+i] < Index`; a decoder without it would accept a second encoding of the same hint vector.
+func loweredCounterHint(r *hlib.Rng, ps *pset) []byte {
+	i := 1 + r.Intn(ps.k-1)
+	h := randHint(r, ps.k, 1+r.Intn(ps.omega-1))
+	for j := range h[i] {
+		h[i][j] = 0
+	}
+	y := specHintPack(ps.omega, ps.k, h)
+	if y[ps.omega+i-1] == 0 { // no ones before polynomial i: add one (total stays ≤ ω)
+		h[0][r.Intn(256)] = 1
+		y = specHintPack(ps.omega, ps.k, h)
+	}
+	y[ps.omega+i] = byte(r.Intn(int(y[ps.omega+i-1])))
+	return y
+}
+
 func codecSection(o *hlib.Out, seed uint64) {
 	rng := hlib.NewRng(seed, "c10/codec")
 	n := hlib.N(60, 1500)
@@ -178,6 +354,15 @@ func codecSection(o *hlib.Out, seed uint64) {
 				o.Violate("BitUnpack(BitPack(w)) ≠ w for %s", s.name)
 			}
 			o.Count("codec/pack-" + s.name)
+			// the same two calls put to the Lean model (the model computes the width as bitlen(a+b))
+			sa, sb, sbits := fmt.Sprint(s.a), fmt.Sprint(s.b), fmt.Sprint(s.bits)
+			if s.a == 0 {
+				emitD(o, hlib.Tok(got), "spack", sbits, hlib.U32List(w))
+				emitD(o, hlib.U32List(back), "sunpack", sbits, hlib.Tok(got))
+			} else {
+				emitD(o, hlib.Tok(got), "bpack", sa, sb, hlib.U32List(w))
+				emitD(o, hlib.U32List(back), "bunpack", sa, sb, hlib.Tok(got))
+			}
 			// unpacking arbitrary bytes (out-of-range values included, as Alg. 18/19 do not check)
 			raw := rng.Bytes(32 * s.bits)
 			ints := specUnpack(raw, s.bits)
@@ -194,6 +379,26 @@ func codecSection(o *hlib.Out, seed uint64) {
 				o.Violate("BitUnpack(%s) of arbitrary bytes differs from FIPS 204 Alg. 18/19", s.name)
 			}
 			o.Count("codec/unpack-" + s.name)
+			if s.a == 0 {
+				emitD(o, hlib.U32List(gu), "sunpack", sbits, hlib.Tok(raw))
+			} else {
+				emitD(o, hlib.U32List(gu), "bunpack", sa, sb, hlib.Tok(raw))
+			}
+		}
+		// packing is defined on every field element (bits above the width are dropped, out-of-range
+		// signed coefficients wrap): one shape per case with arbitrary residues, model vs Go only
+		{
+			s := shapes[rng.Intn(len(shapes))]
+			w := make([]uint32, 256)
+			for i := range w {
+				w[i] = fe(rng)
+			}
+			if s.a == 0 {
+				emitD(o, hlib.Tok(imldsa.VerifSimpleBitPack(w, s.bits)), "spack", fmt.Sprint(s.bits), hlib.U32List(w))
+			} else {
+				emitD(o, hlib.Tok(imldsa.VerifBitPack(w, s.b, s.bits)), "bpack", fmt.Sprint(s.a), fmt.Sprint(s.b), hlib.U32List(w))
+			}
+			o.Count("codec/pack-any-residue")
 		}
 		// hints
 		for _, ps := range psets {
@@ -221,10 +426,15 @@ func codecSection(o *hlib.Out, seed uint64) {
 				}
 			}
 			o.Count("codec/hint-roundtrip")
+			somega, sk := fmt.Sprint(ps.omega), fmt.Sprint(ps.k)
+			emitD(o, hlib.Tok(y), "hpack", append([]string{somega, sk}, hintArgs(h)...)...)
+			emitD(o, goHintUnpack(ps.par, y), "hunpack", somega, sk, hlib.Tok(y))
 			// decisions on damaged and on arbitrary encodings
 			for m := 0; m < 6; m++ {
 				y2 := append([]byte(nil), y...)
-				switch rng.Intn(6) {
+				switch rng.Intn(7) {
+				case 6:
+					y2 = loweredCounterHint(rng, ps)
 				case 5:
 					y2 = overrunHint(rng, ps)
 				case 0:
@@ -251,6 +461,7 @@ func codecSection(o *hlib.Out, seed uint64) {
 				var err error
 				if p := hlib.Recover(func() { got, err = ps.par.VerifHintBitUnpack(y2) }); p != "" {
 					o.Violate("hintBitUnpack(ML-DSA-%s) PANICS on %x: %s", ps.name, y2, p)
+					emitD(o, "panic", "hunpack", somega, sk, hlib.Tok(y2))
 					continue
 				}
 				if (want == nil) != (err != nil) {
@@ -268,6 +479,11 @@ func codecSection(o *hlib.Out, seed uint64) {
 				} else {
 					o.Count("codec/hint-decode=ok")
 				}
+				if err != nil {
+					emitD(o, "reject", "hunpack", somega, sk, hlib.Tok(y2))
+				} else {
+					emitD(o, hintShow(got), "hunpack", somega, sk, hlib.Tok(y2))
+				}
 			}
 			// w1Encode = concatenated SimpleBitPack with bitlen((q-1)/(2γ2)-1) bits
 			m := (q - 1) / (2 * ps.gamma2)
@@ -283,10 +499,12 @@ func codecSection(o *hlib.Out, seed uint64) {
 				}
 				want = append(want, specPack(w1[i], ps.par.VerifW1Bits())...)
 			}
-			if !bytes.Equal(ps.par.VerifW1Encode(w1), want) {
+			gotW1 := ps.par.VerifW1Encode(w1)
+			if !bytes.Equal(gotW1, want) {
 				o.Violate("w1Encode(ML-DSA-%s) differs from FIPS 204 Alg. 28", ps.name)
 			}
 			o.Count("codec/w1Encode")
+			emitD(o, hlib.Tok(gotW1), "w1enc", append([]string{fmt.Sprint(ps.par.VerifW1Bits())}, polyArgs(w1)...)...)
 		}
 	}
 	// ExpandMask (Alg. 34) incl. counters ≥ 256, which ordinary signing reaches only after 64+
